@@ -327,7 +327,21 @@ class Sim:
                 self.atoms.positions[i] += np.array(mid["shift"])
             self.user_edits = getattr(self, "user_edits", 0) + 1
             yield from mc.irun(p["steps"] - s1)
+        rp = p.get("replace_move")
         for step in steps_iter():
+            if rp and mc.step_count == rp["step"] and rp["name"] in mc.moves:
+                # the user swaps the object behind an existing table entry for a fresh, equivalent one (tuning an operation, say): from now on the
+                # NEW object is the one in the table - it must get the notifications, the old one is out of the game
+                j = rp["leaf"]
+                old = self.leaves[j]
+                if isinstance(old, ExchangeMove):
+                    new = ExchangeMove(np.array(old.labels), old.operation, bias_towards_insert=old.bias_towards_insert)
+                else:
+                    new = DisplacementMove(np.array(old.labels), old.operation)
+                new.default_label, new.max_attempts, new.check_move = old.default_label, old.max_attempts, old.check_move
+                mc.moves[rp["name"]].move = new
+                self.leaves[j] = new
+                rp = None
             for name in step:
                 # the generator yields the name BEFORE the trial runs: finish bookkeeping of the previous one
                 if cur is not None:
@@ -340,6 +354,10 @@ class Sim:
                     if len(e1.unique_labels):
                         e1.to_delete_label = int(e1.unique_labels[cur["step"] % len(e1.unique_labels)])
                         e2.to_add_atoms = self.exchange.copy()
+                        if p.get("force_swap_big"):
+                            # the documented one-shot pre-selection may name ANOTHER species than the template (here: three atoms instead of one)
+                            from ase import Atoms as _A
+                            e2.to_add_atoms = _A("OH2", positions=[[0.0, 0.0, 0.0], [0.96, 0.0, 0.0], [-0.24, 0.93, 0.0]])
                 if probe:
                     cur["pre_evals"] = getattr(self.atoms.calc, "evaluations", None)
             if cur is not None:
